@@ -218,8 +218,17 @@ func (p c09) Exec(c *run.Ctx, idx int, raw json.RawMessage) []run.Result {
 		base = runtime.NumGoroutine()
 	}
 	var hit32, armed32 int32 = 0, 1 // written by service goroutines when the calls travel over TCP
+	var stormHits32 int32
+	var storm32 int32 // 1: every call to the target service fails (a service that is down for a while)
 	for _, s := range r.Services {
 		s.FaultFn = func(cl *fake.Call) *fake.Fault {
+			if atomic.LoadInt32(&storm32) == 1 {
+				if cl.Service.Name == target.svc {
+					atomic.AddInt32(&stormHits32, 1)
+					return &fake.Fault{Kind: "status-500", Pos: -1}
+				}
+				return nil
+			}
 			if atomic.LoadInt32(&armed32) == 0 {
 				return nil
 			}
@@ -367,12 +376,49 @@ func (p c09) Exec(c *run.Ctx, idx int, raw json.RawMessage) []run.Result {
 	}
 	// canary afterwards (faults disarmed: later requests must be unaffected by the earlier failure)
 	atomic.StoreInt32(&armed32, 0)
+	if sp.Kind == "status-500" && sp.Pos == -1 && !sp.Batch && sp.Second < 0 && hr.Panic == nil {
+		// the service stays down for a dozen more requests, then recovers: whatever the gateway keeps per service
+		// (slots, breakers, pooled connections) must not be used up by failures
+		atomic.StoreInt32(&storm32, 1)
+		for i := 0; i < 12; i++ {
+			stormDone := make(chan struct{})
+			go func() { r.Query(&sp.Op); close(stormDone) }()
+			select {
+			case <-stormDone:
+			case <-time.After(20 * time.Second):
+				add("request-during-outage-did-not-return", fmt.Sprintf("request %d of 12 while %s answers 500: no answer within 20s; %s", i+1, target.svc, desc))
+				i = 12
+			}
+		}
+		atomic.StoreInt32(&storm32, 0)
+		res.Counters["outages_then_recovery"] = 1
+		res.Counters["calls_failed_during_outages"] = int(atomic.LoadInt32(&stormHits32))
+	}
 	if canaryOK && hr.Panic == nil {
-		ch := r.Query(&sp.Canary)
-		if v := judgeAgainstRef(ch, crefData); v != nil {
-			add("later-request-affected: "+v.symptom, v.msg)
+		canaryDone := make(chan *rig.HTTPResult, 1)
+		go func() { canaryDone <- r.Query(&sp.Canary) }()
+		select {
+		case ch := <-canaryDone:
+			if v := judgeAgainstRef(ch, crefData); v != nil {
+				add("later-request-affected: "+v.symptom, v.msg)
+			}
+		case <-time.After(30 * time.Second):
+			add("later-request-affected: no answer", "the request after the failure was not answered within 30s; "+desc)
 		}
 		res.Counters["canaries_after"] = 1
+	}
+	if sp.Kind == "status-500" && sp.Pos == -1 && !sp.Batch && sp.Second < 0 && hr.Panic == nil {
+		// the faulted operation itself once more, the service being healthy again
+		again := make(chan *rig.HTTPResult, 1)
+		go func() { again <- r.Query(&sp.Op) }()
+		select {
+		case ah := <-again:
+			if g, derr := rig.DecodeSingle(ah.Body); derr != nil || len(g.Errors) > 0 {
+				add("service-not-usable-after-recovery", fmt.Sprintf("after the outage the operation is answered %s; %s", head(string(ah.Body), 300), desc))
+			}
+		case <-time.After(30 * time.Second):
+			add("service-not-usable-after-recovery", "no answer within 30s after the outage; "+desc)
+		}
 	}
 	// net/http hands a connection back only when the answer body was read to its end or closed: a body that is
 	// dropped unread keeps the connection, and with a bounded pool the next sub-request waits for it forever
